@@ -142,6 +142,20 @@ pub fn run(ctx: &Ctx) -> i32 {
     rep.assumptions.push("token text of the in-process expansion is faithful on the Ok path".into());
     if let Some(p) = &ctx.replay {
         let Some(v) = check::read_replay(p) else { rep.inconclusive.push("unreadable replay file".into()); return rep.finish() };
+        // the saved pair of renderings is replayed as it is (independent of the generator's current version)
+        let saved = v["source"].as_str().unwrap_or("");
+        if let Some((a, b)) = saved.strip_prefix("// spelling A\n").and_then(|r| r.split_once("\n// spelling B\n")) {
+            rep.evaluations = 1;
+            let (ea, eb) = (engine::expand_src(a), engine::expand_src(b));
+            let same = match (item_multiset(&ea), item_multiset(&eb)) {
+                (Ok(x), Ok(y)) => x == y,
+                _ => ea.tag() == eb.tag() && !ea.is_ok(),
+            };
+            if !same {
+                rep.violations.push(Failure { msg: format!("the two saved spellings still disagree: A is {}, B is {}", ea.tag(), eb.tag()), dna: check::dna_of(&v), variant: "replay".into(), source: saved.to_string(), unit_body: None });
+            }
+            return rep.finish();
+        }
         let pr = eval(&check::dna_of(&v));
         rep.evaluations = 1;
         if let Err(m) = pr.verdict {
